@@ -67,7 +67,7 @@ class Layout:
 
 
 def build(tables, file_objects=None, *, hdr_seqs=(2, 1), sigs=None, version=0x400, extra_objects=(), objtab_chain=False,
-          table_size=0x1000, more_objtabs=None):
+          table_size=0x1000, more_objtabs=None, stale_header_differs=True):
     """tables: list of {"idx", "seq", "entries": [bytes...]} in object-table order (entries already encoded, with resolved
     parent offsets).  file_objects: {offset_placeholder_key: bytes} handled by the caller through Layout.
     Returns bytes."""
@@ -98,8 +98,11 @@ def build(tables, file_objects=None, *, hdr_seqs=(2, 1), sigs=None, version=0x40
             t += struct.pack("<BIQIB", typ, 0x1234, o2, size, alloc)
         out[off] = t.ljust(0x1000, b"\0")
     out[0x3000] = replay_log(sig=sigs.get("replay", SIG_REPLAY))
-    out[0] = file_header(hdr_seqs[0], sig=sigs.get("head1", SIG_HEADER), version=version)
-    out[0x1000] = file_header(hdr_seqs[1], sig=sigs.get("head2", SIG_HEADER), version=version)
+    # the header copy with the lower sequence number is stale: its replay log pointer leads nowhere (a reader that picks it fails)
+    lo1 = 0x3000 if (hdr_seqs[0] >= hdr_seqs[1] or not stale_header_differs) else 0x3800
+    lo2 = 0x3000 if (hdr_seqs[1] >= hdr_seqs[0] or not stale_header_differs) else 0x3800
+    out[0] = file_header(hdr_seqs[0], sig=sigs.get("head1", SIG_HEADER), version=version, log_off=lo1)
+    out[0x1000] = file_header(hdr_seqs[1], sig=sigs.get("head2", SIG_HEADER), version=version, log_off=lo2)
     end = max(o + len(b) for o, b in out.items())
     buf = bytearray(end)
     for o, b in out.items():
